@@ -16,12 +16,12 @@ RULE = ('Cases: files of 2..8 samples (C07 sample styles, so that some k-mers ar
         'every non-empty proper subset is deleted (exhaustive over subsets), random subsets above; names given on the command '
         'line or in a names file (one per line; with/without trailing newline), in place or with -o.  '
         'The result is compared with a `ska build` of the remaining samples (differential) and with the model; a quarter of the files first pass through `ska weed --filter-ambig-as-missing` with a one-sample threshold (stored files with a history; model only).  Refusal cases '
-        '(unknown name, all names) must exit non-zero and leave the file byte-identical.  Non-trivial: at least one k-mer '
+        '(unknown name, all names, all names with one of them repeated) must exit non-zero and leave the file byte-identical.  Non-trivial: at least one k-mer '
         'disappears or at least two non-adjacent columns are removed; distinct = distinct (k, mode, samples, subset, route).')
 ASSUMPTIONS = ['sample names are [A-Za-z0-9_]+ ; a share of names end in .fa/.fasta to exercise name handling',
                'the build of the remaining samples is a run of the same binary (differential); the model is independent']
 REQUIRED = {t: ['route:cli', 'route:file', 'route:file-no-trailing-newline', 'inplace', 'with-o',
-                'refuse:unknown', 'refuse:all', 'kmers_removed', 'nonadjacent_deletions', 'width64', 'width128', 'pretreated_files']
+                'refuse:unknown', 'refuse:all', 'refuse:all-with-repeat', 'kmers_removed', 'nonadjacent_deletions', 'width64', 'width128', 'pretreated_files']
             for t in ('quick', 'thorough')}
 
 
@@ -177,7 +177,10 @@ def run_case(desc, ctx):
                     res.nontrivial.append(fingerprint([k, rcmode, samples, dn, route, inplace]))
         if variant == 'rel':
             # refusal cases: unknown name (alone and next to a valid one), all names
-            for what, dnames in (('unknown', [names[0], 'nosuchsample']), ('unknown', ['nosuchsample']), ('all', list(names))):
+            dup = list(names) + [rng.choice(names)]
+            rng.shuffle(dup)
+            for what, dnames in (('unknown', [names[0], 'nosuchsample']), ('unknown', ['nosuchsample']), ('all', list(names)),
+                                 ('all-with-repeat', dup)):
                 for route in ('cli', 'file'):
                     ctx.write('work.skf', original)
                     if route == 'cli':
